@@ -91,7 +91,7 @@ def build_execs(items, tier, rng):
     srcs = sorted(by_src)
     if tier == "quick":
         rng.shuffle(srcs)
-        srcs = srcs[:260]
+        srcs = srcs[:500]
     execs = []
     for n, src in enumerate(srcs):
         e = by_src[src]
@@ -143,6 +143,14 @@ def run(tier, seed):
     if len(items) < 1000:
         raise vlib.InfraError("generation produced %d items\n%s" % (len(items), gen["out"][-2000:]))
     execs, nsrc = build_execs(items, tier, rng)
+    # long random walks (TLC -simulate): history-dependent behaviour that one-test-per-transition cannot reach
+    nwalk = 400 if tier == "quick" else 6000
+    sim = vlib.tlc_emit("Modes_MC.tla", "cfg/Modes_sim.cfg", simulate=nwalk, depth=30, seed=seed + 1, workers=1, timeout=600)
+    walks = [it["h"] for it in sim["items"]]
+    if len(walks) < nwalk // 2:
+        raise vlib.InfraError("simulation produced %d walks\n%s" % (len(walks), sim["out"][-2000:]))
+    for n, h in enumerate(walks):
+        execs.append({"x": "w%d" % n, "steps": fixture(h[0]["c"]["s"]) + [step_of(x["c"]) for x in h[1:]], "nontrivial": len(h) - 1})
     vlib.log("C14: %d model transitions, %d source states, %d executions" % (len(items), nsrc, len(execs)))
     res, acc, rej, bad, states = run_and_validate(bld, execs)
     byx = {e["x"]: e for e in execs}
@@ -173,7 +181,7 @@ def run(tier, seed):
            "rule": "one execution per (sampled) source state of the Modes state graph: shortest history + every call the model "
                    "says leaves the state unchanged, plus one execution per state-changing call; distinct_nontrivial counts "
                    "distinct (source state, call) pairs executed",
-           "model_transitions": len(items), "model_source_states": nsrc,
+           "model_transitions": len(items), "model_source_states": nsrc, "random_walks": len(walks),
            "trace_states": states, "exhaustive": tier == "thorough",
            "action_coverage": {k: v[0] for k, v in mc["coverage"].items()},
            "rejected_first_pass": len(rej)}
